@@ -1,5 +1,5 @@
 CONSTANTS
-  Deviations = {"F10b", "F11b"}
+  Deviations = {"F10b", "F11b", "F24b", "F25b"}
   Level = "core"
   MaxSteps = 0
   GenDepth = 0
